@@ -107,6 +107,12 @@ class Conc:
                 except (ValueError, IndexError):
                     raise Unknown(e)
             raise Unknown(e)
+        if k in ("index", "cidx"):
+            arr = r(e[1])
+            i = r(e[2]) if k == "index" else e[2]
+            if isinstance(arr, tuple) and arr and arr[0] == "array" and isinstance(i, int) and 0 <= i < len(arr[1]):
+                return arr[1][i]
+            raise Unknown(e)
         if k == "agg":
             if e[1] == "tuple":
                 return tuple(r(x) for x in e[3])
@@ -114,7 +120,9 @@ class Conc:
                 return NONE if e[2] == "None" else some(r(e[3][0]))
             if e[1] and e[1].startswith("std::ops::Range") and len(e[3]) >= 2:
                 return ("range", r(e[3][0]), r(e[3][1]), e[1].startswith("std::ops::RangeInclusive"))
-            if e[1] in ("array", "closure"):
+            if e[1] == "array":
+                return ("array", tuple(r(x) for x in e[3]))
+            if e[1] == "closure":
                 raise Unknown(e)
             return ("adt", e[1], e[2], tuple(r(x) for x in e[3]))
         if k == "call":
@@ -149,6 +157,29 @@ class Conc:
             if isinstance(rg, tuple) and rg and rg[0] == "range":
                 return rg[1] <= x <= rg[2] if rg[3] else rg[1] <= x < rg[2]
             raise Unknown(e)
+        if name.endswith("<impl [T]>::get") and len(args) == 2:
+            arr, i = r(args[0]), r(args[1])
+            if isinstance(arr, tuple) and arr and arr[0] == "array" and isinstance(i, int):
+                return some(arr[1][i]) if 0 <= i < len(arr[1]) else NONE
+            raise Unknown(e)
+        if name.endswith("<impl [T]>::len") and len(args) == 1:
+            arr = r(args[0])
+            if isinstance(arr, tuple) and arr and arr[0] == "array":
+                return len(arr[1])
+            raise Unknown(e)
+        for ty in ("usize", "u8", "u16", "u32", "u64", "isize", "i8", "i16", "i32", "i64"):
+            for opn, fn in (("wrapping_sub", lambda a, b: a - b), ("wrapping_add", lambda a, b: a + b)):
+                if name.endswith("<impl %s>::%s" % (ty, opn)) and len(args) == 2:
+                    return wrap(ty, fn(r(args[0]), r(args[1])))
+            if name.endswith("<impl %s>::checked_sub" % ty) and len(args) == 2:
+                v = r(args[0]) - r(args[1])
+                lo, hi = INT_RANGES[ty]
+                return some(v) if lo <= v <= hi else NONE
+            if name.endswith("<impl %s>::saturating_sub" % ty) and len(args) == 2:
+                lo, hi = INT_RANGES[ty]
+                return max(lo, min(hi, r(args[0]) - r(args[1])))
+        if name.endswith("Option::<T>::copied") or name.endswith("Option::<&T>::copied") or name.endswith("Option::<T>::cloned") or name.endswith("Option::<&T>::cloned"):
+            return r(args[0])
         if name.endswith("Option::<T>::unwrap") or name.endswith("Option::<T>::expect"):
             o = r(args[0])
             if o == NONE:
@@ -189,9 +220,10 @@ class Conc:
         raise Unknown(e)
 
     # ---- control ------------------------------------------------------------------------------
-    def run(self, max_steps=4000):
+    def run(self, max_steps=4000, want_result=True):
         """Walk from the entry; returns the value written last to the return place (None if the
-        path diverges)."""
+        path diverges).  With want_result=False only the path is computed (self.path) and True is
+        returned at the `return`."""
         b = self.b
         bb = 0
         for _ in range(max_steps):
@@ -199,7 +231,7 @@ class Conc:
             t = b.term(bb)
             k = t["k"]
             if k == "return":
-                return self._result()
+                return self._result() if want_result else True
             if k in ("goto", "call", "assert", "drop"):
                 if t.get("target") is None:
                     return None
